@@ -21,8 +21,8 @@ class Diag:
         self.kind = None; self.fn = None; self.tag = None; self.origin = None; self.offset = None
         self.clause = None; self.props = None; self.exit_text = None
 
-def run_verus(path, extra=None, timeout=900, threads=None):
-    cmd = ['verus', path, '--output-json', '--time', '--multiple-errors', '30', '--triggers-mode', 'silent']
+def run_verus(path, extra=None, timeout=900, threads=None, multiple_errors=30):
+    cmd = ['verus', path, '--output-json', '--time', '--multiple-errors', str(multiple_errors), '--triggers-mode', 'silent']
     if threads: cmd += ['--num-threads', str(threads)]
     if extra: cmd += extra
     cmd += ['--', '--error-format=json']
